@@ -183,8 +183,18 @@ func TestVfC17ClientCert(t *testing.T) {
 			Tls: &TlsCfg{Cert: "$DIR/cert.pem", Key: "$DIR/key.pem", CA: "$DIR/ca.pem", VerifyClientCert: verify}}
 		cfg := &Config{Servers: []ServerCfg{srv}, Upstreams: []UpstreamCfg{{Tag: "up", Addr: up.Addr()}}, Rules: []Rule{{Forward: "up"}}}
 		// siblings naming the same certificate / key / CA files with the opposite (or no) client verification
-		sibling := rapid.SampledFrom([]string{"none", "listener-before", "listener-after", "upstream"}).Draw(t, "sibling")
+		sibling := rapid.SampledFrom([]string{"none", "listener-before", "listener-after", "upstream", "listener-of-another-ca", "listener-of-another-ca"}).Draw(t, "sibling")
 		switch sibling {
+		case "listener-of-another-ca":
+			// a second listener with the same certificate and key that verifies client certificates against ANOTHER CA. A
+			// client with a certificate of that CA visits it first (and leaves with whatever session state TLS gives
+			// it); what the first listener demands of that client is not changed by the visit.
+			sib := srv
+			sib.Tag, sib.Listen = "sib", fmt.Sprintf("%s:%d", pip, ListenerPorts[kind]+100)
+			t2 := *srv.Tls
+			t2.VerifyClientCert, t2.CA = true, "$DIR/otherca.pem"
+			sib.Tls = &t2
+			cfg.Servers = []ServerCfg{srv, sib}
 		case "listener-before", "listener-after":
 			sib := srv
 			sib.Tag, sib.Listen = "sib", fmt.Sprintf("%s:%d", pip, ListenerPorts[kind]+100)
@@ -199,7 +209,7 @@ func TestVfC17ClientCert(t *testing.T) {
 		case "upstream":
 			cfg.Upstreams = append(cfg.Upstreams, UpstreamCfg{Tag: "sib", Addr: "tls://" + block + "3:853", Tls: &TlsCfg{Cert: "$DIR/cert.pem", Key: "$DIR/key.pem", CA: "$DIR/ca.pem"}})
 		}
-		p, err := StartProxy(cfg.YAML(), map[string]string{"cert.pem": string(server.CertPEM), "key.pem": string(server.KeyPEM), "ca.pem": string(ca.CertPEM), "sys.pem": string(sysCA.CertPEM)}, ProxyOpts{Env: []string{"SSL_CERT_FILE=$DIR/sys.pem", "SSL_CERT_DIR=$DIR/no-such-dir"}})
+		p, err := StartProxy(cfg.YAML(), map[string]string{"cert.pem": string(server.CertPEM), "key.pem": string(server.KeyPEM), "ca.pem": string(ca.CertPEM), "otherca.pem": string(otherCA.CertPEM), "sys.pem": string(sysCA.CertPEM)}, ProxyOpts{Env: []string{"SSL_CERT_FILE=$DIR/sys.pem", "SSL_CERT_DIR=$DIR/no-such-dir"}})
 		if err != nil {
 			t.Fatalf("%v", err)
 		}
@@ -219,6 +229,23 @@ func TestVfC17ClientCert(t *testing.T) {
 			tc.Certificates = []tls.Certificate{ca.Issue(LeafOpts{DNSNames: []string{"client"}, SelfSigned: true}).TLS}
 		case "valid":
 			tc.Certificates = []tls.Certificate{ca.Issue(LeafOpts{DNSNames: []string{"client"}, Client: true}).TLS}
+		}
+		if sibling == "listener-of-another-ca" {
+			tc.ClientSessionCache = tls.NewLRUClientSessionCache(16)
+			// (the visitor is the client itself when its certificate is from that CA; otherwise another identity of the same
+			// resolver process, sharing its session cache)
+			visit := tc.Clone()
+			visit.ClientSessionCache = tc.ClientSessionCache
+			visit.Certificates = []tls.Certificate{otherCA.Issue(LeafOpts{DNSNames: []string{"client"}, Client: true}).TLS}
+			for i := 0; i < 2; i++ {
+				v := NewAsker(pip, "")
+				v.TLS, v.PortOffset = visit, 100
+				vr := v.Ask(kind, Query(8, vfkit.Name{[]byte("visit"), []byte("c17"), []byte("test")}, 1, 1, false), 3*time.Second, 0)
+				v.Close()
+				if len(vr.Resps) < 1 {
+					t.Fatalf("the listener that verifies against the other CA did not serve a client with a certificate of that CA: %v\n%s", vr.Err, tail(p.Stderr(), 800))
+				}
+			}
 		}
 		a := NewAsker(pip, "")
 		a.TLS = tc
